@@ -186,4 +186,17 @@ __CPROVER_ensures((!__CPROVER_old(f->eof) && !__CPROVER_old(f->fail)) ==>
                    (n > 2 && VF_AVAIL_OLD(f) > 2 ==> (unsigned char)dst[2] == f->buf[(size_t)__CPROVER_old(f->pos) + 2]) &&
                    (n > 3 && VF_AVAIL_OLD(f) > 3 ==> (unsigned char)dst[3] == f->buf[(size_t)__CPROVER_old(f->pos) + 3])));
 
+
+/* vector<string> copy assignment: element-wise string copies */
+void contract_vf_vec_string_assign(vf_vec_string *v, const vf_vec_string *o)
+__CPROVER_requires(v != o && __CPROVER_rw_ok(v, sizeof(*v)) && __CPROVER_r_ok(o, sizeof(*o)) && VF_VEC_OK(*o, vf_string) &&
+                   (vf_gv < o->size ==> VF_STR_OK(o->data[vf_gv])))
+__CPROVER_assigns(v->data, v->size)
+__CPROVER_frees(v->data)
+__CPROVER_ensures(v->size == o->size && __CPROVER_is_fresh(v->data, VF_VEC_BYTES(*o, vf_string)))
+__CPROVER_ensures(vf_gv < o->size ==> (v->data[vf_gv].size == o->data[vf_gv].size &&
+                                       __CPROVER_is_fresh(v->data[vf_gv].data, o->data[vf_gv].size + 1) &&
+                                       v->data[vf_gv].data[v->data[vf_gv].size] == 0 &&
+                                       (vf_gc < o->data[vf_gv].size ==> v->data[vf_gv].data[vf_gc] == o->data[vf_gv].data[vf_gc])));
+
 #endif
